@@ -71,6 +71,8 @@ type wireCtx struct {
 	Undecided []string
 	Inlined   map[string]bool
 	maxDepth  int
+	protoVals map[ssa.Value]bool // parameters of protocol-predicate helpers being evaluated
+	fnDepth   int
 }
 
 func newWireCtx(P *Program, vt *VersionTable, proto int64) *wireCtx {
@@ -287,7 +289,14 @@ func (w *wireCtx) evalProtoCond(cond ssa.Value) (val bool, known bool) {
 		}
 		return 0, false
 	}
+	if u, ok := cond.(*ssa.UnOp); ok && u.Op == token.NOT {
+		v, k := w.evalProtoCond(u.X)
+		return !v, k
+	}
 	isProtoVal := func(v ssa.Value) bool {
+		if w.protoVals[strip(v)] {
+			return true
+		}
 		p := PathOf(v)
 		return strings.HasSuffix(p, ".Protocol") || p == "protocol" || strings.HasSuffix(p, "rotocol") || strings.HasSuffix(p, ".Protocol()")
 	}
@@ -311,6 +320,17 @@ func (w *wireCtx) evalProtoCond(cond ssa.Value) (val bool, known bool) {
 			case "Lower":
 				return w.proto < x, true
 			}
+		}
+		// a predicate helper over the protocol alone
+		if f != nil && f.Signature.Recv() == nil && len(cl.Call.Args) > 0 {
+			for _, a := range cl.Call.Args {
+				if !isProtoVal(a) || !isProtocolType(a.Type()) {
+					return false, false
+				}
+			}
+			w.fnDepth++
+			defer func() { w.fnDepth-- }()
+			return w.evalProtoFunc(f, w.fnDepth)
 		}
 		return false, false
 	}
